@@ -111,7 +111,7 @@ func prepareRanking(ranking [][]model.AlternativeResult) *model.AlternativesRank
 	for _, equivalentEntries := range ranking {
 		var sameAlternativesId []string
 		for i, r := range equivalentEntries {
-			var thisAlternativeWorse = worseOneLevelThanCurrent
+			var thisAlternativeWorse = append([]string{}, worseOneLevelThanCurrent...)
 			sameAlternativesId = append(sameAlternativesId, r.Alternative.Id)
 			for j, a := range equivalentEntries {
 				if i != j {
